@@ -211,6 +211,10 @@ def run(rep, tier, rng):
         cb = C.Case(f"r{ri}", b["code"], {"base": bi})
         cases.append(cb)
         trs = []
+        # the prelude-shadowing scope on every rich base
+        ct = C.Case(f"ws{ri}", shadow_transform(b["code"]), {"base": bi, "kind": "shadow", "mapping": {}})
+        sweep.append(ct)
+        trs.append(ct)
         for role in ROLE_TOKENS:
             toks = [t for t in ROLE_TOKENS[role] if has(t, b["code"])]
             if not toks:
